@@ -72,7 +72,7 @@ pub fn owners(st: &Step) -> Vec<&'static str> {
         Step::Ver { .. } => vec!["C09", "C08"],
         Step::BQ { .. } | Step::BFlush { .. } => vec!["C13", "C08"],
         Step::Decode { .. } => vec!["C15"],
-        Step::Disk { .. } | Step::Load { .. } | Step::SimFmt { .. } => vec!["C16"],
+        Step::Disk { .. } | Step::Store { .. } | Step::Load { .. } | Step::SimFmt { .. } => vec!["C16"],
     }
 }
 
@@ -132,7 +132,7 @@ fn one(w: &mut World, i: usize, st: &Step, c: &mut Counters) -> Result<Option<(u
             | Step::Rerep { .. }
             | Step::FromEd { .. }
     );
-    let is_disk = matches!(st, Step::Load { .. } | Step::SimFmt { .. });
+    let is_disk = matches!(st, Step::Store { .. } | Step::Load { .. } | Step::SimFmt { .. });
     let m = if is_group {
         w.mg.apply(st)
     } else if is_disk {
